@@ -253,11 +253,19 @@ def run_e2e(samply, hsym, case, d, port_base):
     pd = os.path.join(d, "rec.perf.data")
     open(pd, "wb").write(P.build(recs, first_time=T, last_time=t))
     outp = os.path.join(d, "out.json.gz" if case["gz"] else "out.json")
+    if case["seed"] % 3 == 0:
+        # the output path is in use already (an earlier, longer profile): saving replaces the file
+        with open(outp, "wb") as f:
+            f.write((gzip.compress if case["gz"] else bytes)(b'{"meta":{"note":"an earlier profile"},"libs":[],"threads":[' + b'{"x":1},' * 40000 + b'{}]}'))
     r = subprocess.run([samply, "import", pd, "--save-only", "-o", outp], capture_output=True, text=True, timeout=120)
     if r.returncode != 0 or not os.path.exists(outp):
         return {"error": "samply import failed: " + (r.stderr or r.stdout)[-300:]}
     raw = open(outp, "rb").read()
-    prof = json.loads(gzip.decompress(raw) if case["gz"] else raw, object_pairs_hook=list)
+    try:
+        prof = json.loads(gzip.decompress(raw) if case["gz"] else raw, object_pairs_hook=list)
+    except Exception as ex:
+        # nothing of such a file can be loaded back: no library it was meant to list is known to the server
+        return {"error": "the saved profile is not a JSON document (%s; %d bytes)" % (str(ex)[:80], len(raw)), "violates": True}
 
     def obj(pairs):
         return dict(pairs)
@@ -384,7 +392,7 @@ def evaluate(cases):
             continue
         if "error" in r:
             c["_out"] = r["error"]
-            verdicts[i] = 1
+            verdicts[i] = 12 if r.get("violates") else 1
             continue
         stats["e2e"] += 1
         stats["gz"] += 1 if c["gz"] else 0
